@@ -78,7 +78,7 @@ pub assume_specification<T, E, U, F: FnOnce(E) -> U>[ Poll::<Result<T, E>>::map_
 
 //@extract_type file=actix-server/src/service.rs item="struct StreamService<S, I>"
 
-//@extract file=actix-server/src/service.rs item="impl<S, I> Service<(WorkerCounterGuard, MioStream)> for StreamService<S, I> / fn call" async_block=1 block_sig="async fn conn_task<Fut: Future>(f: Fut, guard: WorkerCounterGuard) -> ()" props=C02,C03 name=service::conn_task trace_awaits
+//@extract file=actix-server/src/service.rs item="impl<S, I> Service<(WorkerCounterGuard, MioStream)> for StreamService<S, I> / fn call" async_block=1 block_sig="async fn conn_task<Fut: Future>(f: Fut, guard: WorkerCounterGuard) -> ()" props=C02,C03 name=service::conn_task trace_awaits bind="f=self.service.call(stream)"
 //@spec
     requires vawait_tag(&f) == AwaitTag::ServiceFuture,
 //@insert before="drop(guard);"
@@ -103,7 +103,7 @@ impl<S: Service<I>, I: FromStream> StreamService<S, I> {
         r matches Poll::Ready(x) ==> (x is Ok <==> self.service.ready_outcome() matches Poll::Ready(Ok(_))),
 //@end
 
-//@extract file=actix-server/src/service.rs item="impl<S, I> Service<(WorkerCounterGuard, MioStream)> for StreamService<S, I> / fn call" ret=r props=C01,C02 name=service::call tuple_param async_block_call="conn_task(f, guard)"
+//@extract file=actix-server/src/service.rs item="impl<S, I> Service<(WorkerCounterGuard, MioStream)> for StreamService<S, I> / fn call" ret=r props=C01,C02 name=service::call tuple_param async_block_call="conn_task(f, guard)" bind="f=self.service.call(stream)"
 //@replace pattern="actix_rt::spawn(" rule=R15
 vspawn(
 //@spec
@@ -157,7 +157,7 @@ impl<S, I> Boxable for StreamService<S, I> {
     uninterp spec fn boxed(self) -> BoxedServerService;
 }
 
-//@extract file=actix-server/src/service.rs item="impl<F, Io> InternalServiceFactory for StreamNewService<F, Io> / fn create" async_block=1 block_sig="async fn create_block<Fut: Future<Output = Result<S, E>>, S: Service<Io>, E, Io: FromStream>(fut: Fut, token: usize) -> Result<(usize, BoxedServerService), ()>" ret=r props=C01 name=service::create_block drop_as_infer
+//@extract file=actix-server/src/service.rs item="impl<F, Io> InternalServiceFactory for StreamNewService<F, Io> / fn create" async_block=1 block_sig="async fn create_block<Fut: Future<Output = Result<S, E>>, S: Service<Io>, E, Io: FromStream>(fut: Fut, token: usize) -> Result<(usize, BoxedServerService), ()>" ret=r props=C01 name=service::create_block drop_as_infer bind="fut=self.inner.create().new_service(());;token=self.token"
 //@replace pattern="StreamService::new(inner)" rule=R18
 StreamService::<S, Io>::new(inner)
 //@spec
@@ -180,7 +180,7 @@ impl<F: ServerServiceFactory<Io>, Io: FromStream> StreamNewService<F, Io> {
     ensures r.token == self.token, r.name == self.name, r.addr == self.addr,   // [C08] a replacement worker's factories keep their tokens
 //@end
 
-//@extract file=actix-server/src/service.rs item="impl<F, Io> InternalServiceFactory for StreamNewService<F, Io> / fn create" ret=r props=C01 name=service::create async_block_call="create_block(fut, token)" sig_replace="fn create(&self)=>fn create_svc(&self)"
+//@extract file=actix-server/src/service.rs item="impl<F, Io> InternalServiceFactory for StreamNewService<F, Io> / fn create" ret=r props=C01 name=service::create async_block_call="create_block(fut, token)" bind="fut=self.inner.create().new_service(());;token=self.token" sig_replace="fn create(&self)=>fn create_svc(&self)"
 //@spec
     requires true,
 //@insert before="Box::pin("
